@@ -345,6 +345,11 @@ const (
 )
 
 func c09KillPlan(r *verifkit.Run, i int) *c09Plan {
+	if i%4 == 3 {
+		p := c09LargeTruncPlan(r.Rand(43, uint64(i)), i%8 == 3)
+		p.restart = nil
+		return p
+	}
 	p := c09MakePlan(r.Rand(31, uint64(i)), r.N(22, 30), true)
 	p.restart = nil
 	return p
